@@ -55,7 +55,7 @@ pub fn sim_cfg_of(plan: &Plan) -> SimCfg {
         max_steps: plan.sim.max_steps,
         max_virtual_ns: 8 * 3600 * 1_000_000_000,
         stuck_ns: (20 * plan.cfg.cleanup_ms * 1_000_000).max(30 * 1_000_000_000),
-        stalls: plan.sim.stalls.iter().map(|s| Stall { at_step: s.at_step, name_contains: s.task.clone(), for_steps: s.for_steps }).collect(),
+        stalls: plan.sim.stalls.iter().map(|s| Stall { at_step: s.at_step, name_contains: s.task.clone(), for_steps: s.for_steps, for_ns: s.for_ns }).collect(),
         epoch_ns: crate::gen::EPOCH_S * 1_000_000_000 + plan.sim.epoch_phase_ns,
         stall_after_recv_permille: plan.sim.stall_after_recv_permille,
     }
@@ -90,6 +90,7 @@ pub fn execute(plan: &Plan, choices: Option<Vec<u32>>, record: bool, props: &[St
     faults.insert("clock_jump".to_string(), out.counters.clock_jumps);
     faults.insert("stall_skips".to_string(), out.counters.stall_skips);
     faults.insert("worker_stalled_right_after_receiving".to_string(), out.counters.stalls_after_recv);
+    faults.insert("task_stalled_in_virtual_time".to_string(), out.counters.vstalls);
     faults.insert("blocks".to_string(), out.counters.blocks);
     faults.insert("select_arm_choices".to_string(), out.counters.select_choices);
     // fault kinds that actually fired in this run, counted from the history
